@@ -109,7 +109,16 @@ def rule_defaults(chk, prog):
                 elif src[0] == "const":
                     got.add(src[1])
                 elif src[0] == "place":
-                    continue            # the value read from the document
+                    pl = list(src[1])
+                    dd = v.single_def(pl[0]) if pl else None
+                    dc = v.call_at(dd[0]) if dd and dd[1] == "term" else None
+                    if dc is not None and ("f:" + fld) in pl[1:] and (dc.local_key() == d.key or
+                                                                     (re.search(r"default::Default::default$", dc.path or "") and "config::Timeouts" in v.local_ty_s(pl[0]))):
+                        got.add(want)       # container-level #[serde(default)]: the field of Timeouts::default() itself
+                        continue
+                    if any(str(x).startswith("d:Some") for x in pl[1:]) or not pl[1:]:
+                        continue            # the value read from the document
+                    unknown = True
                 else:
                     unknown = True
         ok = want is not None and not unknown and got == {want}
